@@ -49,7 +49,7 @@ func specSigOps(s []byte, accurate bool) int {
 // C13(4): countSigOpsV0 == the reference count on every script of up to 4 (thorough 6) bytes, both modes
 //verif:opts reach=end
 func VH_count_sigops() {
-	n := vNondetLen("len", 4+2*vTier())
+	n := vNondetLen("len", 3+2*vTier())
 	s := vNondetBytes("script", n)
 	vAssume(n < 5 || s[0] != 78)
 	acc := vNondetBool("accurate")
